@@ -250,6 +250,14 @@ func (s *Lexer) readNumber() (Token, error) {
 		}
 	}
 
+	// a number cannot be directly followed by a name start or a dot
+	if s.end < len(s.Input) {
+		c := s.Input[s.end]
+		if c == '.' || c == '_' || (c >= 'a' && c <= 'z') || (c >= 'A' && c <= 'Z') {
+			return s.makeError("Invalid number, expected digit but got: %s.", s.describeNext())
+		}
+	}
+
 	if float {
 		return s.makeToken(Float)
 	}
